@@ -290,7 +290,9 @@ fn spell(p: &Path, style: u8) -> String {
 }
 
 pub fn argv_of(scn: &Scenario, r: &RunSpec, data: &Path, dump: &Path) -> Vec<String> {
-    let mut a: Vec<String> = vec!["-c".into(), scn.coin.clone(), "-d".into(), spell(data, r.path_style)];
+    let mut a: Vec<String> = if r.omit_coin && scn.coin == "bitcoin" { vec![] } else { vec!["-c".into(), scn.coin.clone()] };
+    a.push("-d".into());
+    a.push(spell(data, r.path_style));
     if r.verify {
         a.push("--verify".into());
     }
@@ -319,7 +321,10 @@ pub fn exec_scenario(ctx: &ExecCtx, wd: &Workdir, scn: &Scenario, built: &Built)
     let mut outcomes = Vec::with_capacity(scn.runs.len());
     let mut infos: BTreeMap<usize, WorldInfo> = BTreeMap::new();
     for (ri, r) in scn.runs.iter().enumerate() {
-        let data = wd.root.join(format!("data{}", r.layout));
+        let data = match &r.dir_alias {
+            Some(a) => wd.root.join(a).join(format!("data{}", r.layout)),
+            None => wd.root.join(format!("data{}", r.layout)),
+        };
         // normally a sibling of the data directory; optionally a sub-directory of it
         let dump = if r.dump_in_data { data.join("csv-out") } else { dump_default.clone() };
         if r.fresh_data || !infos.contains_key(&r.layout) {
